@@ -36,7 +36,7 @@ func init() {
 	register(&propDef{
 		ID: "C05",
 		Meta: propMeta{
-			Explanation: "Decides one structural necessary condition of acceptance by outside verifiers (nothing is executed, no outside tool is run): the constants the specifications prescribe have the prescribed values in relic's source. (R05a) every map from crypto.Hash to an object identifier maps each hash to its RFC 3279/5758 digest OID; (R05b) every table from crypto.Hash to an algorithm name or URI (JAR digest attribute names, XML-DSig and appx block map URIs, OCI digest names) maps each hash to a name of that very hash; (R05c) every table of (public key algorithm, hash, OID) lists the RFC 3279/4055/5758 signature algorithm OID of that pair; (R05d) every table of named curves pairs elliptic.Pnnn() with its RFC 5480 OID and bit size; (R05e) the APK signature algorithm table pairs (hash, key type, PSS) with the IDs of the APK Signature Scheme v2; (R05f) every package-level object identifier whose name states a role the reference registry knows (OidAttributeMessageDigest, OidSpcIndirectDataContent, ...) has that role's value, and no two of them share a value; (R05g) the byte ranges DigestPE leaves out of the image hash are the CheckSum field and the fifth data directory entry as laid out by debug/pe's OptionalHeader32/64, the constants 24, 88 and 40 are the sizes of the PE signature plus file header, the checksum's file offset behind the PE header and a section header, and the image is padded to 8 bytes; (R05h) the APK v2 chunk prefix is 0xa5 in front of a chunk length and 0x5a in front of the chunk count, chunks are 1 MiB, the block ID is 0x7109871a and the magic \"APK Sig Block 42\"; (R05i) the attributes the CMS builder adds are contentType for an OID value, messageDigest for the digest and signingTime for a time, under their RFC 5652 identifiers, and the bytes digested for the signature carry the SET OF tag and are not reordered on the way (no sort and no `set` marshalling parameter in the functions reachable from AttributeList.Bytes / AuthenticatedAttributesBytes); (R05j) RSA-PSS parameters name MGF1 with the same hash and trailer field 1; (R05k) the JAR signature file uses Signature-Version: 1.0 and the digest attribute suffixes -Digest, -Digest-Manifest and -Digest-Manifest-Main-Attributes; (R05l) the function that builds an RFC 3161 request sets version 1 and posts it as application/timestamp-query; (R05m) the dpkg-sig control block starts with Version: 4, Signer, Date, Role, Files in that order and the member is named _gpg<role>; (R05o) string constants named after an item a format prescribes (the two MSI signature streams, the PowerShell block markers, the appx member names, META-INF/MANIFEST.MF) are spelt as prescribed; the appx digest blob is APPX AXPC AXCD AXCT AXBM AXCI behind the PKCX magic; the JAR signature block is named .RSA for an RSA key and .EC for an EC key; (R05n) the OpenPGP packet header writer compares the body length with exactly the RFC 4880 boundaries 192 and 8384. (R05s) every call that emits the APK hasher's partial buffer (block(buf[:n])) lies behind a test n != 0: no empty chunk enters the v2 digest; (R05t) every store into peHeaderValues.pageSize stores the constant 4096 or 8192, the latter only behind comparisons of FileHeader.Machine with 0x200, 0x184 or 0x284. (R05p) xmldsig.hashAlgs returns a SignatureMethod URI built in the xmldsig# namespace only on paths where the key type was found to be RSA, and none built in xmldsig-more# when the key is RSA and the hash SHA-1 (reachability of the return with the contradicting edges deleted); (R05q) the comparison loop of sortMsiFiles is bounded by min of both recorded name lengths, halved, not otherwise adjusted; (R05r) where signjar cuts a manifest section at the result of a search for a blank-line delimiter, the section ends at index + len(delimiter) for every consistent choice of phi edges (conditional: a splitter of another shape is not judged).",
+			Explanation: "Decides one structural necessary condition of acceptance by outside verifiers (nothing is executed, no outside tool is run): the constants the specifications prescribe have the prescribed values in relic's source. (R05a) every map from crypto.Hash to an object identifier maps each hash to its RFC 3279/5758 digest OID; (R05b) every table from crypto.Hash to an algorithm name or URI (JAR digest attribute names, XML-DSig and appx block map URIs, OCI digest names) maps each hash to a name of that very hash; (R05c) every table of (public key algorithm, hash, OID) lists the RFC 3279/4055/5758 signature algorithm OID of that pair; (R05d) every table of named curves pairs elliptic.Pnnn() with its RFC 5480 OID and bit size; (R05e) the APK signature algorithm table pairs (hash, key type, PSS) with the IDs of the APK Signature Scheme v2; (R05f) every package-level object identifier whose name states a role the reference registry knows (OidAttributeMessageDigest, OidSpcIndirectDataContent, ...) has that role's value, and no two of them share a value; (R05g) the byte ranges DigestPE leaves out of the image hash are the CheckSum field and the fifth data directory entry as laid out by debug/pe's OptionalHeader32/64, the constants 24, 88 and 40 are the sizes of the PE signature plus file header, the checksum's file offset behind the PE header and a section header, and the image is padded to 8 bytes; (R05h) the APK v2 chunk prefix is 0xa5 in front of a chunk length and 0x5a in front of the chunk count, chunks are 1 MiB, the block ID is 0x7109871a and the magic \"APK Sig Block 42\"; (R05i) the attributes the CMS builder adds are contentType for an OID value, messageDigest for the digest and signingTime for a time, under their RFC 5652 identifiers, and the bytes digested for the signature carry the SET OF tag and are not reordered on the way (no sort and no `set` marshalling parameter in the functions reachable from AttributeList.Bytes / AuthenticatedAttributesBytes); (R05j) RSA-PSS parameters name MGF1 with the same hash and trailer field 1; (R05k) the JAR signature file uses Signature-Version: 1.0 and the digest attribute suffixes -Digest, -Digest-Manifest and -Digest-Manifest-Main-Attributes; (R05l) the function that builds an RFC 3161 request sets version 1 and posts it as application/timestamp-query; (R05m) the dpkg-sig control block starts with Version: 4, Signer, Date, Role, Files in that order and the member is named _gpg<role>; (R05o) string constants named after an item a format prescribes (the two MSI signature streams, the PowerShell block markers, the appx member names, META-INF/MANIFEST.MF) are spelt as prescribed; the appx digest blob is APPX AXPC AXCD AXCT AXBM AXCI behind the PKCX magic; the JAR signature block is named .RSA for an RSA key and .EC for an EC key; (R05n) the OpenPGP packet header writer compares the body length with exactly the RFC 4880 boundaries 192 and 8384. (R05s) every call that emits the APK hasher's partial buffer (block(buf[:n])) lies behind a test n != 0: no empty chunk enters the v2 digest; (R05t) every store into peHeaderValues.pageSize stores the constant 4096 or 8192, the latter only behind comparisons of FileHeader.Machine with 0x200, 0x184 or 0x284. (R05p) xmldsig.hashAlgs returns a SignatureMethod URI built in the xmldsig# namespace only on paths where the key type was found to be RSA, and none built in xmldsig-more# when the key is RSA and the hash SHA-1 (reachability of the return with the contradicting edges deleted); (R05q) the comparison loop of sortMsiFiles is bounded by min of both recorded name lengths, halved, not otherwise adjusted; (R05r) where signjar cuts a manifest section at the result of a search for a blank-line delimiter, the section ends at index + len(delimiter) for every consistent choice of phi edges (conditional: a splitter of another shape is not judged). (R05u) the canonicaliser's attribute comparator puts namespace declarations first and orders attributes by resolved namespace URI, then local name (the analysis of C19 R19e; a comparator of a shape it cannot follow is reported as undecided); (R05v) the size stored in the PE security data directory is not taken from the length of a buffer that begins with CertStart-OrigSize alignment bytes unless that quantity is subtracted.",
 			NotDecided:  "acceptance itself: that the bytes relic digests are the bytes the specification says (region order beyond the fields checked, page hashes, the checksum algorithm, the JAR manifest section digests and line folding, the MSI stream order, the CAB header digest, the APK chunk tree over the right sections, canonical XML), DER encodings produced by encoding/asn1, PGP packet framing, the dpkg-sig member layout. Those compare relic's output with an outside implementation on concrete inputs and need that implementation to run; they are not claimed. A table entry the reference tables do not know (a new hash, a vendor OID) is reported as not covered, not as a violation.",
 			Assumptions: []string{"the reference tables in c05.go, written from the RFCs and vendor specifications named there", "debug/pe's OptionalHeader32/64, FileHeader, SectionHeader32 and DataDirectory lay the PE headers out as the PE/COFF specification does"},
 		},
@@ -45,6 +45,7 @@ func init() {
 }
 
 func runC05(c *Ctx) {
+	defer round7C05(c)
 	c.Rule("R05a", "hash -> digest algorithm OID tables agree with RFC 3279 / RFC 5758", 6)
 	c.Rule("R05b", "hash -> algorithm name / URI tables name the hash they are keyed by", 15)
 	c.Rule("R05c", "(key algorithm, hash) -> signature algorithm OID tables agree with RFC 3279 / 4055 / 5758", 12)
